@@ -6,8 +6,10 @@ def plan(tier, seed):
     hs = [H("c17::facade_%s" % t, "lexical::to_string == lexical_core::write, every byte < 0x80", "all values") for t in ("u8", "i8", "u16", "i16")]
     hs += [H("c17::facade_parse_%s" % t, "lexical::parse/parse_partial == lexical_core", "arbitrary bytes len<=3") for t in ("u8_3", "i16_3", "u32_3")]
     hs += [H("c17::facade_special_f32", "to_string of NaN/inf/0", "all special patterns"), H("c17::facade_special_f64", "", "all special patterns")]
+    asc = [H("c15::w_special_custom_f32", "every byte written for custom NaN/inf strings accepted by is_valid() is 7-bit ASCII", "symbolic strings of length 1..4"),
+           H("c15::w_special_custom_f64", "", "symbolic strings of length 1..4")]
     return {
-        "kani": [KGroup("S", hs, timeout=1500, jobs=9, mem_gb=10, label="std")],
+        "kani": [KGroup("S", hs, timeout=1500, jobs=9, mem_gb=10, label="std"), KGroup("D", asc, timeout=900, jobs=2, mem_gb=8, label="ASCII of special strings")],
         "functions_encoded": ["lexical::{to_string,parse,parse_partial}", "lexical_core::{write,parse,parse_partial}"],
         "bounds": ["integers: all values of 8/16-bit types; parse: arbitrary bytes len<=3; floats: special values and zeros only"],
         "outside_claim": ["to_string_with_options / buffer_size sufficiency for floats (needs the float formatting layer: see C09/C14)", "wider integer types (the facade is type-generic code; not re-run)"],
